@@ -148,12 +148,12 @@ class Builder:
             common["suit-shared-sequence"] = shared
         mf["suit-common"] = common
         if cid and cid[0] == "first":
-            mf["suit-manifest-component-id"] = ["I", {"RFC4122_UUID": {"namespace": cid[1], "name": cid[2]}}]
+            mf["suit-manifest-component-id"] = ["INSTLD_MFST", {"RFC4122_UUID": {"namespace": cid[1], "name": cid[2]}}]
         if sh.get("pad") is not None:
             mf["suit-reference-uri"] = "u"
         mf["suit-validate"] = validate
         if cid and cid[0] == "mid":
-            mf["suit-manifest-component-id"] = ["I", {"RFC4122_UUID": {"namespace": cid[1], "name": cid[2]}}]
+            mf["suit-manifest-component-id"] = ["INSTLD_MFST", {"RFC4122_UUID": {"namespace": cid[1], "name": cid[2]}}]
         if sh.get("version") is not None:
             mf["suit-current-version"] = sh["version"]
         mf["suit-invoke"] = [{"suit-directive-set-component-index": 0}, {"suit-directive-invoke": ["suit-send-record-failure"]}]
@@ -178,7 +178,7 @@ class Builder:
             if mode == "sev":
                 envmembers[m] = content
         if cid and cid[0] == "last":
-            mf["suit-manifest-component-id"] = ["I", {"RFC4122_UUID": {"namespace": cid[1], "name": cid[2]}}]
+            mf["suit-manifest-component-id"] = ["INSTLD_MFST", {"RFC4122_UUID": {"namespace": cid[1], "name": cid[2]}}]
         for name, size, form, seed in sh.get("pay", []):
             data = blob(size, seed)
             if form == "hex":
